@@ -30,6 +30,7 @@ class VLoop(asyncio.AbstractEventLoop):
         self.iterations = 0
         self.max_steps = max_steps
         self.on_iteration = None
+        self.on_idle = None  # called when nothing is scheduled; returns True if it scheduled something
         self.executor_calls = 0
 
     # -- time & scheduling
@@ -143,6 +144,8 @@ class VLoop(asyncio.AbstractEventLoop):
         try:
             while not fut.done():
                 if not self._run_once():
+                    if self.on_idle is not None and self.on_idle(self):
+                        continue
                     raise Deadlock("nothing scheduled and future not done")
         finally:
             self._leave()
